@@ -172,6 +172,10 @@ def main():
                     spy.seen = []
                     try:
                         key = idx if len(idx) != 1 or rng.random() < 0.5 else idx[0]
+                        if rng.random() < 0.2:
+                            # numpy integers are integers
+                            key = (tuple(np.int64(i_) if type(i_) is int else i_ for i_ in key) if isinstance(key, tuple)
+                                   else np.int64(key) if type(key) is int else key)
                         if kind == "array":
                             got = c["x"].data[key]
                             stats["dap2_array"] += 1
